@@ -1432,14 +1432,15 @@ def sym_isinstance(v, c):
         if getattr(v, "is_list", False):
             return c is list
         return c is np.ndarray
+    import numbers as _numbers
     if isinstance(v, SInt):
-        if c in (int, np.integer, np.number, numbers_Integral()):
+        if c in (int, np.integer, np.number, numbers_Integral(), _numbers.Number, _numbers.Real, _numbers.Rational):
             return True
         return False
     if isinstance(v, SReal):
-        return c in (float, np.floating, np.number)
+        return c in (float, np.floating, np.number, _numbers.Number, _numbers.Real)
     if isinstance(v, SBool):
-        return c in (bool, int, np.bool_)
+        return c in (bool, int, np.bool_, _numbers.Number, _numbers.Real, numbers_Integral())
     if isinstance(v, SStr):
         return c is str
     if isinstance(v, SBytes):
@@ -1497,6 +1498,8 @@ def _float(interp, v=0.0):
         return wrap(z3.ToReal(v.e))
     if isinstance(v, SReal):
         return v
+    if isinstance(v, SBool):
+        return wrap(z3.If(v.e, z3.RealVal(1), z3.RealVal(0)))
     raise eng.Unsupported(f"float() of {type(v).__name__}")
 
 
